@@ -26,13 +26,29 @@ type cand struct {
 	Typ        string `json:"t"`
 	Rest       string `json:"r,omitempty"` // raddr/rport, tcptype, generation ...
 	Raw        string `json:"raw,omitempty"`
+	// Sep: how the tokens are separated. WebRTC stacks (pion: strings.Fields) accept any run of blanks
+	// and tabs: "" = single blanks; tab-after-typ | blanks-after-typ | tab-before-typ | tabs | blanks-before-addr
+	Sep string `json:"sep,omitempty"`
 }
 
 func (c cand) value() string {
 	if c.Raw != "" {
 		return c.Raw
 	}
-	s := fmt.Sprintf("%s %s %s %s %s %s typ %s", c.Foundation, c.Component, c.Proto, c.Priority, c.Addr, c.Port, c.Typ)
+	sp, beforeTyp, afterTyp, beforeAddr := " ", " ", " ", " "
+	switch c.Sep {
+	case "tab-after-typ":
+		afterTyp = "\t"
+	case "blanks-after-typ":
+		afterTyp = "  "
+	case "tab-before-typ":
+		beforeTyp = "\t"
+	case "tabs":
+		sp, beforeTyp, afterTyp, beforeAddr = "\t", "\t", "\t", "\t"
+	case "blanks-before-addr":
+		beforeAddr = "   "
+	}
+	s := c.Foundation + sp + c.Component + sp + c.Proto + sp + c.Priority + beforeAddr + c.Addr + sp + c.Port + beforeTyp + "typ" + afterTyp + c.Typ
 	if c.Rest != "" {
 		s += " " + c.Rest
 	}
@@ -336,6 +352,7 @@ func genCand(t *rapid.T) cand {
 		Addr:       genAddr(t),
 		Port:       strconv.Itoa(rapid.IntRange(0, 65535).Draw(t, "port")),
 		Typ:        rapid.SampledFrom([]string{"host", "host", "host", "srflx", "prflx", "relay"}).Draw(t, "typ"),
+		Sep:        rapid.SampledFrom([]string{"", "", "", "", "", "tab-after-typ", "blanks-after-typ", "tab-before-typ", "tabs", "blanks-before-addr"}).Draw(t, "sep"),
 	}
 	if c.Typ != "host" {
 		if rapid.IntRange(0, 4).Draw(t, "raddr") != 0 {
